@@ -1028,16 +1028,25 @@ func fullTagAppend(bi, b *blockPointer, offset int) {
 	for i := range bi.tagFamilies {
 		tagFamilyMap[bi.tagFamilies[i].name] = &bi.tagFamilies[i]
 	}
+	// Positions, not pointers: appending a new family or column below may
+	// reallocate bi.tagFamilies / columns, and a pointer taken before the
+	// append would then address the abandoned copy.
+	tagFamilyIdx := make(map[string]int, len(bi.tagFamilies))
+	for i := range bi.tagFamilies {
+		tagFamilyIdx[bi.tagFamilies[i].name] = i
+	}
 
 	for _, tf := range b.tagFamilies {
-		if existingTagFamily, exists := tagFamilyMap[tf.name]; exists {
-			columnMap := make(map[string]*column)
+		if _, exists := tagFamilyMap[tf.name]; exists {
+			existingTagFamily := &bi.tagFamilies[tagFamilyIdx[tf.name]]
+			columnIdx := make(map[string]int, len(existingTagFamily.columns))
 			for i := range existingTagFamily.columns {
-				columnMap[existingTagFamily.columns[i].name] = &existingTagFamily.columns[i]
+				columnIdx[existingTagFamily.columns[i].name] = i
 			}
 
 			for _, c := range tf.columns {
-				if existingColumn, exists := columnMap[c.name]; exists {
+				if idx, exists := columnIdx[c.name]; exists {
+					existingColumn := &existingTagFamily.columns[idx]
 					assertIdxAndOffset(c.name, len(c.values), b.idx, offset)
 					existingColumn.values = append(existingColumn.values, c.values[b.idx:offset]...)
 				} else {
